@@ -13,9 +13,8 @@ EXPLANATION = (
     "attributes only from the renderer's vocabulary, values/text without raw < > \", & only as one of four entities, proper nesting."
 )
 BOUNDS = {
-    "quick": "escapeHtml on len<=3; 24 slot scaffolds with 1-2 free characters, xhtmlOut/breaks symbolic where relevant, langPrefix 1 free character; "
-             "pipeline FREE(2)+newline under js-default and zero",
-    "thorough": "escapeHtml len<=4; slot scaffolds with 2-3 free characters x {js-default, commonmark html=False, typographer on}; pipeline FREE(3)",
+    "quick": 'escapeHtml on 1, 2 and 3 free characters; 28 output-slot scaffolds (text, code, fence body/info/class, href, title, src, alt, start, align, cell, heading, breaks, html-looking input, reference title, nested strike/emphasis) with 1 free character (2 for code blocks; URL slots: ASCII + 7 non-ASCII representatives), xhtmlOut/breaks/inline_definitions/store_labels symbolic where relevant, langPrefix 1 free character; pipeline on 2 free characters + newline under js-default and zero',
+    "thorough": 'all quick jobs (core) plus the deeper families of thorough_extra() (not core): more free characters, the commonmark preset, the contexts the quick tier had to shed (DESIGN.md 10.5)',
 }
 OUTSIDE = "custom renderers/highlight callbacks (excluded by the property); more than 3 free characters per slot; linkify"
 ASSUMPTIONS = ["CR/NUL-free sources for layers 2-3 (normalize skipped)", "default RendererHTML, highlight=None"]
